@@ -13,7 +13,7 @@ def run(ctx):
     ctx.rule("c39: deterministic ed25519/secp256k1 keys from the PRNG; per case one of: key encodings + dispatch/amino/JSON round trips + address (hashes handed over as oracle table); "
              "single-key verification of a genuine signature and of mutations (each of message/signature/key bytes, truncation, extension, empty, foreign key/signature); "
              "multisig keys of 2-8 members (1/6 nested) with the genuine signature list and every adjacent swap, end swap, rotation, every omission, every adjacent duplicate, extra, empty, stranger, "
-             "message/signature mutation, mutated/truncated/garbage encodings; decoder-only keys (empty, single member, nil member); malformed key encodings (byte mutations, truncation, unknown trailing fields, "
+             "message/signature mutation, mutated/truncated/garbage encodings; multisig keys that repeat a member key (adjacent, non-adjacent, all equal, across kinds, nested) with one bad signature per slot; decoder-only keys (empty, single member, nil member); malformed key encodings (byte mutations, truncation, unknown trailing fields, "
              "non-minimal varints, disfix form, random bytes of the dispatch sizes); Equals across kinds; AddSignatureByIndex on random (length,index); AddSignature assembly in random member order. "
              "non-trivial = accepted verification / successfully decoded key / no panic; distinct = distinct trace line")
     ctx.trust("ed25519, secp256k1, sha256, ripemd160 implementations are not modelled: their verdicts/digests enter the model as data",
